@@ -427,51 +427,123 @@ def r3_partition_typing(ctx):
 
 
 def r4_frame_typing(ctx):
-    """pre_eig path: every user array that reaches the modal work arrays through _init_dv is mapped to modal coordinates"""
+    """pre_eig path, decided on values: _do_pre_eig, _init_dva, _solution and _solution_freq are evaluated on symbols (matrices as commuting
+    symbols, the eigenvector matrix u normalised as la.eigh does: u.T m u = I, i.e. u = m^-1/2 in this model).  Whatever the spelling - a
+    solve against phi, a stored inverse, a transpose times the mass - the user's physical d0 / v0 must reach the modal work arrays as
+    phi^-1 d0, the force as phi.T f, and the solution must come back as phi d."""
     from . import ode_spaces as O
-    fn = ctx.src.func(O.BASE, "_BaseODE._init_dva")
-    # statements under `if self.pre_eig:` that rebind a name through self.phi
-    mapped = {}
-    for st in walk_no_nested(fn):
-        if isinstance(st, ast.If) and ast.unparse(st.test).replace(" ", "") == "self.pre_eig":
-            for s2 in ast.walk(st):
-                if isinstance(s2, ast.Assign) and isinstance(s2.targets[0], ast.Name) and "self.phi" in ast.unparse(s2.value):
-                    mapped[s2.targets[0].id] = s2
-    call = [n for n in walk_no_nested(fn) if isinstance(n, ast.Call) and dotted(n.func) == "self._init_dv"]
-    if len(call) != 1:
-        raise AnchorError("_init_dva: call to self._init_dv")
-    c = call[0]
-    # which arguments of _init_dv are user data in physical coordinates?  (d, v are the work arrays)
-    tgt = ctx.src.func(O.BASE, "_BaseODE._init_dv")
-    pnames = [a.arg for a in tgt.args.args][1:]
-    user = {}
-    for pn, arg in zip(pnames, c.args):
-        roots = {n.id for n in ast.walk(arg) if isinstance(n, ast.Name)}
-        user[pn] = roots
-    params = {a.arg for a in fn.args.args}
-    for pn in ("d0", "v0", "F0"):
-        if pn not in user:
-            ctx.error(f"_init_dv parameter {pn}", tgt)
-            continue
-        roots = user[pn] & params
-        for r in sorted(roots):
-            ok = r in mapped
-            ctx.check(ok, f"_init_dva (pre_eig): user array `{r}` passed to _init_dv as `{pn}` is first mapped to modal coordinates through self.phi",
-                      c, None if ok else f"`{r}` is in physical coordinates but is stored into the modal work arrays by _init_dv "
-                                         f"(d[self.nonrf, 0] = d0[self.nonrf]); witness: coupled system, pre_eig=True, non-zero {r}: sol.{r[0]}[:, 0] != {r}",
-                      key=f"C01-R4|_BaseODE._init_dva|{r} not mapped by phi")
-    # the way back: _solution / _solution_freq map d, v, a with phi on the same flag
-    for q in ("_BaseODE._solution", "_BaseODE._solution_freq"):
-        f2 = ctx.src.func(O.BASE, q)
-        txt = utext(f2)
-        ok = all(f"{x}=self.phi@{x}" in txt for x in "dva") and "ifself.pre_eig:" in txt
-        ctx.check(ok, f"{q}: d, v, a are mapped back with self.phi when pre_eig", f2)
-    # _do_pre_eig: phi diagonalises (k, m); b is transformed by the same phi; m becomes None (identity)
-    f3 = ctx.src.func(O.BASE, "_BaseODE._do_pre_eig")
-    txt = utext(f3)
-    ok = "w,u=la.eigh(k,m)" in txt and "w,u=la.eigh(k)" in txt and "self.phi=u" in txt and "m=None" in txt and "k=w" in txt \
-        and "b=u.T@b@u" in txt and "b=u.T*b@u" in txt
-    ctx.check(ok, "_do_pre_eig: phi = eigenvectors of (k, m); m -> None, k -> w, b -> phi.T b phi (both 1-D and 2-D b)", f3)
+    from .sem import Sem
+    NONE = F.sym("None")
+    f_pre = ctx.src.func(O.BASE, "_BaseODE._do_pre_eig")
+    f_dva = ctx.src.func(O.BASE, "_BaseODE._init_dva")
+
+    def is_none_oracle(extra):
+        def cond(test, ev):
+            t = utext(test)
+            if t in extra:
+                return extra[t]
+            if isinstance(test, ast.Compare) and len(test.ops) == 1 and isinstance(test.ops[0], (ast.Is, ast.IsNot)) \
+                    and isinstance(test.comparators[0], ast.Constant) and test.comparators[0].value is None:
+                v = ev.ev(test.left)
+                if is_unknown(v) or isinstance(v, tuple):
+                    return None
+                r = need(v).equals(NONE)
+                return r if isinstance(test.ops[0], ast.Is) else (not r)
+            return None
+        return cond
+
+    for mcase in ("given", "None"):
+        M = F.sym("M") if mcase == "given" else F.const(1)
+        U = 1 / F.sqrt(M) if mcase == "given" else F.const(1)
+        Usym = F.sym("u")
+
+        def call(node, ev):
+            d = dotted(node.func) or ""
+            if d.endswith("eigh"):
+                return (F.sym("w"), Usym)
+            if d in ("np.diag",) and node.args:
+                return ev.ev(node.args[0])
+            if d == "ytools.mattype":
+                return (F.sym("ktype"), F.sym("types"))
+            if d in ("la.solve", "np.linalg.solve", "scipy.linalg.solve", "linalg.solve") and len(node.args) >= 2:
+                a, b = ev.ev(node.args[0]), ev.ev(node.args[1])
+                if is_unknown(a) or is_unknown(b) or isinstance(a, tuple) or isinstance(b, tuple):
+                    return NotImplemented
+                return need(b) / need(a)
+            if d in ("la.inv", "np.linalg.inv", "linalg.inv") and node.args:
+                a = ev.ev(node.args[0])
+                return 1 / need(a) if not is_unknown(a) else NotImplemented
+            if d == "self._set_initial_cond" and len(node.args) == 2:
+                return (ev.ev(node.args[0]), ev.ev(node.args[1]))
+            if d == "self._alloc_dva":
+                return (F.sym("d_work"), F.sym("v_work"), F.sym("a_work"))
+            return NotImplemented
+
+        for bdim in (1, 2):
+            S1 = Sem(ctx, f_pre, call=call, erase_T=True, env={"m": (F.sym("M") if mcase == "given" else NONE), "b": F.sym("b"), "k": F.sym("k")},
+                     cond=is_none_oracle({"k.ndim==1": True, "m.ndim==1": True, "b.ndim==1": bdim == 1}))
+            ret = S1.ret()
+            ok = isinstance(ret, tuple) and len(ret) == 3 and S1.same(ret[0], NONE) and S1.same(ret[2], F.sym("w")) and S1.same(ret[1], Usym * F.sym("b") * Usym) \
+                and S1.same(S1.env("self.phi"), Usym)
+            ctx.check(ok, f"_do_pre_eig (m {mcase}, b {bdim}-D): phi = eigenvectors of (k, m); returns m -> None, k -> eigenvalues, b -> phi.T b phi", f_pre,
+                      None if ok else repr(ret))
+        attrs = {k: v for k, v in S1.ev.env.items() if k.startswith("self.") and not is_unknown(v)}
+        env = dict(attrs)
+        env.update({"d0": F.sym("d0"), "v0": F.sym("v0"), "force": F.sym("f")})
+
+        def sub(node, ev):
+            if isinstance(node.value, ast.Name) and node.value.id == "force":
+                return ev.ev(node.value)
+            return NotImplemented
+
+        S2 = Sem(ctx, f_dva, call=call, env=env, subscript=sub, erase_T=True,
+                 cond=is_none_oracle({"self.pre_eig": True, "force.shape[0]!=self.n": False, "self.rfsize": False}))
+        calls = S2.calls("self._init_dv")
+        if len(calls) != 1:
+            raise AnchorError("_init_dva: call to self._init_dv")
+        tgt = ctx.src.func(O.BASE, "_BaseODE._init_dv")
+        pnames = [a.arg for a in tgt.args.args][1:]
+        vals = dict(zip(pnames, calls[0][1]))
+        vals.update(calls[0][2])
+
+        def norm(x):
+            # eigenvectors normalised with respect to the mass: u = M^-1/2 (commuting model)
+            return need(x).subs({"u": U})
+        for nm, kind in (("d0", "inv"), ("v0", "inv"), ("F0", "T")):
+            got = vals.get(nm)
+            if got is None or is_unknown(got) or isinstance(got, tuple):
+                ctx.error(f"_init_dva (pre_eig, m {mcase}): argument `{nm}` of _init_dv", calls[0][3], repr(got))
+                continue
+            usr = {"d0": "d0", "v0": "v0", "F0": "f"}[nm]
+            if kind == "inv":
+                res = norm(got) * U - F.sym(usr)           # phi * (modal value) must give back the physical value
+            else:
+                res = norm(got) - U * M * 0 - U * F.sym(usr) if False else norm(got) - U * F.sym(usr)   # phi.T f
+            ok = res.is_zero()
+            ctx.check(ok, f"_init_dva (pre_eig, m {mcase}): user array `{usr}` reaches _init_dv as " +
+                      ("phi^-1 " + usr if kind == "inv" else "phi.T " + usr) + " (physical -> modal coordinates)", calls[0][3],
+                      None if ok else {"value passed": repr(got), "with u = M^-1/2": repr(norm(got)),
+                                       "witness": f"coupled system, pre_eig=True, non-identity mass, non-zero {usr}: sol.{usr[0]}[:, 0] != {usr}"},
+                      key=f"C01-R4|_BaseODE._init_dva|{usr} not mapped by phi")
+        ret = S2.ret()
+        ok = isinstance(ret, tuple) and len(ret) == 4 and not is_unknown(ret[3]) and (norm(ret[3]) - U * F.sym("f")).is_zero()
+        ctx.check(ok, f"_init_dva (pre_eig, m {mcase}): the force returned to the solver is the modal force phi.T f", f_dva, None if ok else repr(ret))
+        # the way back
+        for q in ("_BaseODE._solution", "_BaseODE._solution_freq"):
+            f2 = ctx.src.func(O.BASE, q)
+            S3 = Sem(ctx, f2, call=call, env=dict(attrs), erase_T=True, cond=is_none_oracle({"self.pre_eig": True, "self.h": True}))
+            ns = S3.calls("SimpleNamespace")
+            ok = len(ns) == 1 and all(S3.same(ns[0][2].get(x), Usym * F.sym(x)) for x in "dva")
+            ctx.check(ok, f"{q} (m {mcase}): d, v, a are mapped back to physical coordinates with phi when pre_eig", f2)
+    # and nothing is mapped when pre_eig is off
+    S4 = Sem(ctx, f_dva, env={"d0": F.sym("d0"), "v0": F.sym("v0"), "force": F.sym("f")},
+             cond=is_none_oracle({"self.pre_eig": False, "force.shape[0]!=self.n": False, "self.rfsize": False}),
+             call=lambda node, ev: ((ev.ev(node.args[0]), ev.ev(node.args[1])) if dotted(node.func) == "self._set_initial_cond" else
+                                    ((F.sym("d_work"), F.sym("v_work"), F.sym("a_work")) if dotted(node.func) == "self._alloc_dva" else NotImplemented)),
+             subscript=lambda node, ev: (ev.ev(node.value) if isinstance(node.value, ast.Name) and node.value.id == "force" else NotImplemented))
+    c4 = S4.calls("self._init_dv")
+    ok = len(c4) == 1 and len(c4[0][1]) >= 5 and S4.same(c4[0][1][2], F.sym("d0")) and S4.same(c4[0][1][3], F.sym("v0")) and S4.same(c4[0][1][4], F.sym("f"))
+    ctx.check(ok, "_init_dva (no pre_eig): d0, v0 and the force reach _init_dv unchanged", f_dva)
     # generator refuses pre_eig before any array is shared
     f4 = ctx.src.func(O.BASE, "_BaseODE._init_dva_part")
     first_alloc = min((n.lineno for n in ast.walk(f4) if isinstance(n, ast.Call) and dotted(n.func) == "self._alloc_dva"), default=None)
@@ -581,12 +653,45 @@ def r6_equilibrium_acceleration(ctx):
         ctx.check(ok, f"{q}: the kdof acceleration is recovered from equilibrium on (d, v, a, force) before the solution is returned", calls[-1] if calls else f2)
 
 
+def r7_subspace_typing(ctx):
+    """get_su_coef and SolveUnc._get_complex_su_coefs partition the modes by masks and index vectors (under-, critically, over-damped, damped
+    rigid-body for velocities / for displacements) and fill the coefficient vectors through those selectors.  Every selection must be applied
+    to an array of the space the selector indexes, and every store must receive values computed on exactly the selected modes - otherwise a
+    coefficient is built from another mode's mass / damping / frequency (invisible when the properties are uniform or the selected modes are
+    the leading ones, as in every test)."""
+    from .e3_masks import MaskTyper, A, I, S
+    for rel, qual, params, sizes in (
+            (UTIL, "get_su_coef", {"m": A("K"), "b": A("K"), "k": A("K"), "h": S, "rbmodes": I("K", "K/rbmodes"), "rfmodes": I("K", "K/rfmodes")},
+             {"n": "K"}),
+    ):
+        fn = ctx.src.func(rel, qual)
+        bad = []
+
+        def report(kind, node, detail, bad=bad):
+            bad.append((kind, node, detail))
+
+        T = MaskTyper(params, sizes, report)
+        T.run(fn.body)
+        seen = set()
+        for kind, node, detail in bad:
+            key = f"C01-R7|{qual}|{kind}|{ast.unparse(node)[:60]}"
+            if key in seen:
+                continue
+            seen.add(key)
+            ctx.fail(f"{qual}: {kind}", node, detail, key=key)
+        ctx.check(T.resolved >= 60, f"{qual}: {T.resolved} selections / stores / elementwise operations typed (mask and index sub-spaces of the mode list)", fn,
+                  T.resolved, nontrivial=T.resolved >= 60)
+        if not bad:
+            ctx.ok(f"{qual}: every selector is applied to an array of its own space and every store receives values of the selected sub-space", fn)
+
+
 RULES = [
     ("C01-R1", r1_coef_identities, 150),
     ("C01-R1b", r1b_regime_selectors, 14),
     ("C01-R3", r3_partition_typing, 60),
-    ("C01-R4", r4_frame_typing, 6),
+    ("C01-R4", r4_frame_typing, 14),
     ("C01-R6", r6_equilibrium_acceleration, 11),
+    ("C01-R7", r7_subspace_typing, 2),
 ]
 
 LEVEL = "other"
